@@ -310,3 +310,31 @@ def gen_defs_program(rng, x, big=False):
         ops.append({"op": "signal1", "id": g})
     ops += [{"op": "userdatas"}, {"op": "userdatas", "stop": 2}, {"op": "rclose"}]
     return {"x": x, "kind": "c13", "feat": sorted(feat), "ops": ops}
+
+
+def anno_program(x, adf, tss, seeks, sig=1, base=0, first_off=0, rng=None, payload_big=False, stops=()):
+    """annotations with timestamps tss (relative to base) on signal `sig` (0 = global VSR signal)"""
+    ops = [{"op": "wopen"}, {"op": "source", "id": 1, "name": ["lit", "s"]}]
+    if sig != 0:
+        ops.append({"op": "signal", "id": sig, "src": 1, "dt": "f32", "rate": 1000, "adf": adf, "udf": 10,
+                    "name": ["lit", "x"], "units": ["lit", "u"], "base": base})
+        ops.append({"op": "fsr", "sig": sig, "id": base + first_off, "n": 100})
+    for i, t in enumerate(tss):
+        stype = (i % 3) + 1 if rng is None else rng.choice([1, 2, 3])
+        if stype == 1:
+            size = 0 if rng is None else rng.choice([0, 1, 7, 8, 9, 100, 3000])
+            if payload_big and i % 97 == 5:
+                size = rng.choice([1048575, 1048576, 1048577, 1500000])
+            data = ["rep", size, x * 100003 + i]
+        else:
+            data = ["lit", "anno-%d-%d" % (x, i)]
+        ops.append({"op": "anno", "sig": sig, "ts": base + t, "stype": stype, "atype": i % 4, "group": (i * 7) % 256,
+                    "ybits": [0, 0x3f800000, 0x7fc00000, 0xc2280000][i % 4], "data": data})
+    ops += [{"op": "wclose"}, {"op": "ropen"}]
+    for t in seeks:
+        # reader timestamps of an FSR signal are relative to its first sample id
+        ops.append({"op": "annos", "sig": sig, "t": t - first_off if sig != 0 else t})
+    for (t, k) in stops:
+        ops.append({"op": "annos", "sig": sig, "t": t - first_off if sig != 0 else t, "stop": k})
+    ops.append({"op": "rclose"})
+    return {"x": x, "kind": "c11", "feat": ["adf-%d" % adf, "sig0" if sig == 0 else "fsr"], "ops": ops}
